@@ -79,20 +79,31 @@ def run(ctx):
     gdu = DefUse(G)
     marker_puts = []
     for bid, k, t in P.call_keys(G):
-        if k in ('Batch::put_kv', 'Batch::put') and len(t.args) >= 2:
+        if (k in ('Batch::put_kv', 'Batch::put') or k == '<DB as Put>::put') and len(t.args) >= 2:
             o = gdu.origins(t.args[1], stop_at_calls=False)
             if ('named_const', 'GENESIS_BLOCK_KEY') in o:
-                marker_puts.append((bid, t))
+                marker_puts.append((bid, k, t))
     ctx.floor('C08.R2', 'put of the GENESIS_BLOCK marker', len(marker_puts), 1)
-    mb = marker_puts[0][0]
-    commits = [c for c in P.call_sites(G, 'Batch::commit') if c[0] in gcfg.reachable_from([mb])]
-    ctx.floor('C08.R2', 'commit of the batch holding the marker', len(commits), 1)
-    cb = commits[0][0]
+    mb, mk, mt = marker_puts[0]
+    if mk.startswith('Batch::'):
+        commits = [c for c in P.call_sites(G, 'Batch::commit') if c[0] in gcfg.reachable_from([mb])]
+        ctx.floor('C08.R2', 'commit of the batch holding the marker', len(commits), 1)
+        cb, ct = commits[0]
+    else:
+        cb, ct = mb, mt
     later = gcfg.reachable_from(gcfg.succ[cb])
-    late_writes = sorted({k for bid, k, t in P.call_keys(G) if bid in later and k in D})
-    ctx.ob('C08.R2', G.name, 'the initialised-marker is the last durable write of first-run initialisation', not late_writes, at=commits[0][1].span,
+    late_writes = sorted({k for bid, k, t in P.call_keys(G) if bid in later and (k in D or k.startswith('<DB as Put>') or k.startswith('<DB as Delete>') or k.startswith('<DB as WriteOps>'))})
+    ctx.ob('C08.R2', G.name, 'the initialised-marker is the last durable write of first-run initialisation', not late_writes, at=ct.span,
            writes_after_marker=late_writes,
            crash_point='after the marker batch: every later start skips init and accessors such as get_max_check_point_index().expect(..) abort forever')
+    # every other write of the initialisation precedes the marker
+    inits = [k for k in ('Storage::update_last_state', 'Storage::update_max_check_point_index', 'Storage::update_check_points', 'Storage::update_min_filtered_block_number')]
+    for k in inits:
+        cs = P.call_sites(G, k)
+        ctx.ob('C08.R2', G.name, '%s is durable before the marker' % k, bool(cs) and all(gcfg.dominates(c[0], cb) for c in cs))
+    # the marker is what the "already initialised" test reads
+    reads = [t for bid, k, t in P.call_keys(G) if k == 'Storage::get' and ('named_const', 'GENESIS_BLOCK_KEY') in gdu.origins(t.args[1], stop_at_calls=False)]
+    ctx.ob('C08.R2', G.name, 'the initialised test reads the same marker key', len(reads) >= 1)
 
     # R3 -----------------------------------------------------------------------------------
     B = ctx.body('BlockFiltersProcess::execute')
